@@ -9,10 +9,11 @@ from .match import strip_doc
 
 
 class Use:
-    __slots__ = ('kind', 'node', 'stmt', 'target', 'sub', 'detail')
+    __slots__ = ('kind', 'node', 'stmt', 'target', 'sub', 'detail', 'parent')
 
     def __init__(self, kind, node, stmt, target=None, sub=None, detail=''):
         self.kind, self.node, self.stmt, self.target, self.sub, self.detail = kind, node, stmt, target, sub, detail
+        self.parent = None
 
 
 def parents_of(fn):
@@ -111,7 +112,9 @@ def classify(prog, m, fn, name, st, par, depth, seen):
     elif isinstance(parent, ast.keyword) and isinstance(par.get(parent), ast.Call):
         call, argpos = par[parent], parent.arg
     if call is None:
-        return Use('bad', name, st, detail='read by `%s`' % src(parent)[:80])
+        u = Use('bad', name, st, detail='read by `%s`' % src(parent)[:80])
+        u.parent = parent
+        return u
     cands = resolve_callee(prog, m, fn, call, par)
     if not cands:
         fs = src(call.func)
